@@ -220,6 +220,11 @@ def check(ctx):
     ctx.check(okb, "R02.1", "Block/overflow-reported-before-anything-is-pushed", "; ".join(o.describe() for o in outs or []), vf.at())
     # ---- R02.2 ---------------------------------------------------------------------------
     check_primitives(ctx)
+    # the interpreter's summaries of pop2/pop3/discard/push/push_many/try_extend ("fail without touching the
+    # vector") are C04's all-or-nothing rules: re-evaluated here, filed under R02.2
+    from . import rules_c04
+    from .rules_c03 import _Refile
+    rules_c04.check(_Refile(ctx, {"R04.1": "R02.2", "R04.3": "R02.2"}))
     # ---- R02.3 ---------------------------------------------------------------------------
     n_sites = 0
     for fid, c, ok, detail in fx.error_sites:
